@@ -272,6 +272,15 @@ example : SelShape [Ex.idt "a"] := ⟨by decide, by decide, by decide, by decide
 example : nest [] ([Ex.idt "color", Ex.colon, Ex.idt "red", Ex.semi] ++ [Ex.idt "top", Ex.colon, Ex.fn "f("])
     = some [K.paren] := by decide
 
+/-! ## the model's only fuel (nesting depth of `@media` in `@media`) never runs out -/
+
+/-- noFuel: more fuel than tokens is always enough — the result does not depend on the amount, and it is
+never the out-of-fuel value; `stmtEffect` starts `mediaRule` with `stmt.length + 1`. -/
+theorem media_fuel_irrelevant (O : Oracle) (ns : List (Cps × Cps)) (f₁ f₂ : Nat) (ts : List Tok)
+    (h1 : ts.length < f₁) (h2 : ts.length < f₂) :
+    mediaRule O ns f₁ ts = mediaRule O ns f₂ ts ∧ mediaRule O ns f₁ ts ≠ none :=
+  ⟨mediaRule_fuel O ns f₁ f₂ ts h1 h2, mediaRule_noFuel O ns f₁ ts h1⟩
+
 /-! ## known finding `C04-escaped-delimiter-ident`
 
 All theorems above classify brackets the way `_tokensupto2` does: by token VALUE.  The tokenizer unescapes
